@@ -184,6 +184,8 @@ def convert_via(route, tree):
 
 def check_case(case):
     H.setup_path()
+    if case.get("kind") == "sweep":
+        return check_sweep(case)
     if case.get("kind") == "long":
         cls = M.universe()[case["cls"]]
         mt = sorted(M.member_types(cls).items())
@@ -250,6 +252,56 @@ def _worker(job):
     return s
 
 
+def _vendor_sweep_worker(names):
+    """Every class once, deterministically: the well-known vendor elements (and one unknown element) as first and as last
+    child of the class's own aggregate, element-tree route."""
+    H.setup_path()
+    s = H.Stats()
+    U = M.universe()
+    for name in names:
+        try:
+            with warnings.catch_warnings():
+                warnings.simplefilter("ignore")
+                desc = M.minimal(U[name])
+                M.build(desc)
+        except Exception:
+            continue
+        for tag in ("INTU.BID", "INTU.USERID", "INTU.BROKERID", "ZZUNKNOWN"):
+            for where in ("first", "last"):
+                case = {"kind": "sweep", "cls": name, "tag": tag, "where": where}
+                s.case(case, nontrivial=True, labels=["vendor-element sweep"])
+                for k, d in check_case(case):
+                    s.fail(k, case, d)
+    return s
+
+
+def check_sweep(case):
+    from ofxtools.models.base import Aggregate
+
+    cls = M.universe()[case["cls"]]
+    out = []
+    with warnings.catch_warnings():
+        warnings.simplefilter("ignore")
+        desc = M.minimal(cls)
+        clean = D.to_etree(desc)
+        dirty = copy.deepcopy(clean)
+        e = ET.Element(case["tag"])
+        e.text = "12345"
+        dirty.insert(0 if case["where"] == "first" else len(dirty), e)
+        try:
+            base = Aggregate.from_etree(clean)
+        except Exception:
+            return []
+        try:
+            got = Aggregate.from_etree(dirty)
+        except Exception as ex:
+            return [(f"rejected/vendor-leaf-sweep/{case['where']}", f"{case['cls']} with <{case['tag']}> as {case['where']} child: {ex!r}")]
+        df = M.model_diff(base, got)
+        if df or M.etree_dump(got.to_etree()) != M.etree_dump(base.to_etree()):
+            out.append((f"changed/vendor-leaf-sweep/{case['where']}", f"{case['cls']} with <{case['tag']}> as {case['where']} child: {df[:2]} / written tree differs"))
+    return out
+
+
 def _long_worker(names):
     """Aggregates with hundreds of list members (a year of transactions, a large security list): insertions directly inside
     the long list and inside one of its members."""
@@ -287,5 +339,6 @@ def run(ctx):
     names = sorted(M.universe())
     listy = [n for n in names if M.has_list(M.universe()[n])]
     ctx.pmap(_long_worker, [listy[i::16] for i in range(16)])
+    ctx.pmap(_vendor_sweep_worker, [names[i::16] for i in range(16)])
     n = ctx.scale(8, 120)
     ctx.pmap(_worker, [(names[i::48], n, ctx.sub_seed("cls")) for i in range(48)])
